@@ -71,6 +71,24 @@ def forced_specs(seed, tier):
             sp = gen.make_spec(rng, D=rng.choice([1, 2]), geom="box", mode=mode, cons=None, target="quad")
             sp["options"] = {"n_search": ns, "n_search_iter": nsi, "max_fun_evals": 30 if mode == "det" else 58}
             jobs.append(("search_population", sp, {}))
+    # (j) GP refit retries (named by the property): the FIRST fit of the run, a local refit, and two in a row fail with a Cholesky error
+    for mode in gen.MODES:
+        for sched in ([0], [0, 1], [2], [3, 4]):
+            sp = gen.make_spec(rng, D=rng.choice([1, 2]), geom="box", mode=mode, cons=None, target="quad")
+            sp["options"] = {"n_search": 32, "max_fun_evals": 28 if mode == "det" else 56}
+            jobs.append(("gp_refit_retry", sp, {"gp_faults": sched}))
+    # (k) numeric options spelled with the other Python number type: integral-valued float settings as int (poll_mesh_multiplier = 2, ...)
+    #     and integer settings as float - first the mesh multiplier alone, then all of them at once
+    for mode in ("det", "decl"):
+        for val in ("2", "4"):
+            sp = gen.make_spec(rng, D=2, geom="box", mode=mode, cons=None, target="quad")
+            sp["options"] = {"n_search": 32, "max_fun_evals": 30 if mode == "det" else 58}
+            sp["np_options"] = {"poll_mesh_multiplier": val}
+            jobs.append(("number_type", sp, {}))
+        sp = gen.make_spec(rng, D=2, geom="box", mode=mode, cons=None, target="quad")
+        sp["options"] = {"max_fun_evals": 30 if mode == "det" else 58}
+        sp["np_options"] = dict(gen.retyped_numeric_options())
+        jobs.append(("number_type", sp, {}))
     # (i) end points and plain-Python spellings of numeric search settings: no exploration floor in the strategy portfolio (hedge_gamma = 0:
     #     the scores of the strategies that were not drawn are then predicted by the GP), a fixed scalar confidence parameter sqrt_beta
     for mode in ("det", "decl"):
